@@ -1,12 +1,20 @@
 import QtVerif.Model.Proto
 import QtVerif.Model.Backup
+import QtVerif.Model.Peripherals
 /-! Line-protocol driver for the restore model (C20): runs `putPorts` on an abstracted document.
 
 `static <id>`            registers a non-virtual, writable port on the target hub
 `vport <id>`             registers a virtual port on the target hub (dropped by the restore)
 `put <entry> ...`        entry = `<id>/<v|n>/<d|x>/<attr,...|->` : virtual?, definition acceptable?, attributes
                          `name:g` (acceptable value) | `name:b` (unparsable expression text) | `name:t` (wrong JSON type)
-reply: `ok|err <id> <kind>` + ` updating=<0|1> events=<0|1> ports=<ids present, sorted>` -/
+reply: `ok|err <id> <kind>` + ` updating=<0|1> events=<0|1> ports=<ids present, sorted>`
+
+Peripherals (`QtVerif.Peripherals`): entry = `<name>/<id>/<v|x>/<n>/<s|d>/<v|x>`: name and id (`-` = null, `~` = absent),
+driver loadable?, parameters (a number), static flag, constructor accepts?
+`pbegin`                 empties the registry
+`ptarget <entry> ...`    the registered peripherals of the target (as GET /peripherals lists them; ports initialised)
+`pput <entry> ...`       PUT /peripherals; reply `ok|err <index> <nodrv|ctor|dup|schema>` +
+                         ` reg=<id>:<s|d>:<name|->:<n>:<p|n>,...` (registry afterwards, in order; p = its ports exist) -/
 open QtVerif QtVerif.Config QtVerif.Backup QtVerif.Proto
 
 def numDef : VDef := { isNumber := true, min := none, max := none, step := none, integer := none, choices := none }
@@ -37,7 +45,31 @@ def unhex (s : String) : Option String := do
   let bs ← unhexBytes s.toList
   String.fromUTF8? ⟨bs.toArray⟩
 
+def pcfg : Peripherals.Cfg :=
+  { auto := fun e => "auto" ++ toString (e.params / 2), loadable := fun d => d != "x",
+    ctorOk := fun e => e.params % 2 == 0, schemaOk := fun _ => true }
+
+def parseField (s : String) : Peripherals.Field :=
+  if s = "-" then .null else if s = "~" then .absent else .val s
+
+def parsePEntry (w : String) : Option Peripherals.Entry :=
+  match w.splitOn "/" with
+  | [name, id, drv, n, st, ct] =>
+    match n.toNat? with
+    | some n =>
+      if (drv = "v" ∨ drv = "x") ∧ (st = "s" ∨ st = "d") ∧ (ct = "v" ∨ ct = "x") then
+        some { name := parseField name, id := parseField id, driver := drv, params := 2 * n + (if ct = "v" then 0 else 1),
+               static := st = "s" }
+      else none
+    | none => none
+  | _ => none
+
+def fmtReg (reg : List Peripherals.Periph) : String :=
+  ",".intercalate (reg.map (fun p =>
+    s!"{p.effId}:{if p.static then "s" else "d"}:{p.name.getD "-"}:{p.params / 2}:{if p.ports then "p" else "n"}"))
+
 structure DState where
+  preg : List Peripherals.Periph := []
   clearFirst : Bool := true
   st : BState := { ports := fun _ => none, device := bootDevice cfg0 none, slaves := fun _ => none,
                    updating := true, events := true }
@@ -93,8 +125,25 @@ def mkSlave (i : Nat) : String × Slave :=
      listenEnabled := false, lastSync := -1, attrs := [], provAttrs := [] })
 
 def dstep (d : DState) : List String → DState × String
-  | ["begin"] => ({}, "ok")
-  | ["begin", c] => ({ clearFirst := c == "1" }, "ok")
+  | ["begin"] => ({ preg := d.preg }, "ok")
+  | ["begin", c] => ({ preg := d.preg, clearFirst := c == "1" }, "ok")
+  | ["pbegin"] => ({ d with preg := [] }, "ok")
+  | "ptarget" :: ws =>
+    match ws.mapM parsePEntry with
+    | none => (d, "bad-op")
+    | some es => ({ d with preg := es.map (fun e => { Peripherals.construct pcfg e e.static with ports := true }) }, "ok")
+  | "pput" :: ws =>
+    match ws.mapM parsePEntry with
+    | none => (d, "bad-op")
+    | some es =>
+      let (reg', r) := Peripherals.putPeripherals pcfg d.preg es
+      let head := match r with
+        | .ok => "ok"
+        | .invalid i => s!"err {i} schema"
+        | .raised i .noSuchDriver => s!"err {i} nodrv"
+        | .raised i .ctor => s!"err {i} ctor"
+        | .raised i .duplicate => s!"err {i} dup"
+      ({ d with preg := reg' }, s!"{head} reg={fmtReg reg'}")
   | ["static", id, en, val, ex] =>
     -- a non-virtual port of the target with its enabled flag, current value and expression (hex, `-` = none)
     match parsePV val, (if ex = "-" then some "" else unhex ex) with
